@@ -408,6 +408,13 @@ func (d *driver) runScenario(sc *Scenario) (err error) {
 			}
 			d.rec.emit(map[string]any{"ev": "clock", "now": now})
 		case "authz":
+			if st.Sid == 0 && st.F != "" && d.env.fspec[st.F] != nil {
+				// the session the browser holds for filter F
+				if lg := d.logins[d.browser(st.B).jar[cookieName(d.env.fspec[st.F])]]; lg != nil {
+					d.doAuthz(st.B, lg)
+					continue
+				}
+			}
 			if st.Sid >= 1 && st.Sid <= len(d.issued) {
 				if lg := d.logins[d.issued[st.Sid-1]]; lg != nil {
 					d.doAuthz(st.B, lg)
